@@ -3,7 +3,7 @@
    This file contains only statements, `exact` proofs and Print Assumptions. *)
 From Coq Require Import ZArith List Bool.
 From ScV Require Import Base.CInt Gen.Uint128 Gen.Search Gen.Macros Gen.Functions.
-From ScV Require Import C18.Uint128Proofs C18.SearchProofs C18.MacroProofs C18.PowProofs.
+From ScV Require Import C18.Uint128Proofs C18.SearchProofs C18.MacroProofs C18.PowProofs C18.Uint128Laws.
 Local Open Scope Z_scope.
 
 (* --- 128-bit arithmetic = arithmetic modulo 2^128 ------------------------ *)
@@ -225,3 +225,150 @@ Proof.
   split; [intros i j Hij Hj; destruct Hij; apply Z.mul_le_mono_nonneg_l; [discriminate|assumption]|].
   repeat split; vm_compute; reflexivity.
 Qed.
+
+(* --- laws of COMPOSED 128-bit calls (C18/Uint128Laws.v): what chains of calls rely on ------------- *)
+Theorem C18_law_add_sub_cancel : forall ah al bh bl rh rl rh' rl',
+  wf128 ah al -> wf128 bh bl ->
+  let s := sc_uint128_add ah al bh bl rh rl in
+  sc_uint128_sub (fst s) (snd s) bh bl rh' rl' = (ah, al).
+Proof. exact add_sub_cancel. Qed.
+Print Assumptions C18_law_add_sub_cancel.
+
+Theorem C18_law_sub_add_cancel : forall ah al bh bl rh rl rh' rl',
+  wf128 ah al -> wf128 bh bl ->
+  let s := sc_uint128_sub ah al bh bl rh rl in
+  sc_uint128_add (fst s) (snd s) bh bl rh' rl' = (ah, al).
+Proof. exact sub_add_cancel. Qed.
+Print Assumptions C18_law_sub_add_cancel.
+
+Theorem C18_law_add_comm : forall ah al bh bl rh rl rh' rl',
+  wf128 ah al -> wf128 bh bl ->
+  sc_uint128_add ah al bh bl rh rl = sc_uint128_add bh bl ah al rh' rl'.
+Proof. exact add_comm. Qed.
+Print Assumptions C18_law_add_comm.
+
+Theorem C18_law_add_assoc : forall ah al bh bl ch cl r1 r2 r3 r4 r5 r6 r7 r8,
+  wf128 ah al -> wf128 bh bl -> wf128 ch cl ->
+  let ab := sc_uint128_add ah al bh bl r1 r2 in
+  let bc := sc_uint128_add bh bl ch cl r3 r4 in
+  sc_uint128_add (fst ab) (snd ab) ch cl r5 r6 = sc_uint128_add ah al (fst bc) (snd bc) r7 r8.
+Proof. exact add_assoc. Qed.
+Print Assumptions C18_law_add_assoc.
+
+Theorem C18_law_add_zero : forall ah al rh rl,
+  wf128 ah al -> sc_uint128_add ah al 0 0 rh rl = (ah, al).
+Proof. exact add_zero. Qed.
+Print Assumptions C18_law_add_zero.
+
+Theorem C18_law_sub_as_add_neg : forall ah al bh bl r1 r2 r3 r4 r5 r6 r7 r8,
+  wf128 ah al -> wf128 bh bl ->
+  let nb := sc_uint128_bitwise_neg bh bl r1 r2 in
+  let t := sc_uint128_add ah al (fst nb) (snd nb) r3 r4 in
+  sc_uint128_sub ah al bh bl r7 r8 = sc_uint128_add (fst t) (snd t) 0 1 r5 r6.
+Proof. exact sub_as_add_neg. Qed.
+Print Assumptions C18_law_sub_as_add_neg.
+
+Theorem C18_law_neg_involutive : forall h l r1 r2 r3 r4,
+  wf128 h l ->
+  let n := sc_uint128_bitwise_neg h l r1 r2 in
+  sc_uint128_bitwise_neg (fst n) (snd n) r3 r4 = (h, l).
+Proof. exact neg_involutive. Qed.
+Print Assumptions C18_law_neg_involutive.
+
+Theorem C18_law_de_morgan_or : forall ah al bh bl r1 r2 r3 r4 r5 r6 r7 r8 r9 r10,
+  wf128 ah al -> wf128 bh bl ->
+  let o := sc_uint128_bitwise_or ah al bh bl r1 r2 in
+  let na := sc_uint128_bitwise_neg ah al r3 r4 in
+  let nb := sc_uint128_bitwise_neg bh bl r5 r6 in
+  sc_uint128_bitwise_neg (fst o) (snd o) r7 r8 =
+  sc_uint128_bitwise_and (fst na) (snd na) (fst nb) (snd nb) r9 r10.
+Proof. exact de_morgan_or. Qed.
+Print Assumptions C18_law_de_morgan_or.
+
+Theorem C18_law_chk_after_set : forall h l e e',
+  wf128 h l -> 0 <= e < 128 -> 0 <= e' < 128 ->
+  let s := sc_uint128_set_bit h l e in
+  sc_uint128_chk_bit (fst s) (snd s) e' = if e' =? e then 1 else sc_uint128_chk_bit h l e'.
+Proof. exact chk_after_set. Qed.
+Print Assumptions C18_law_chk_after_set.
+
+Theorem C18_law_set_bit_idempotent : forall h l e,
+  wf128 h l -> 0 <= e < 128 ->
+  let s := sc_uint128_set_bit h l e in
+  sc_uint128_set_bit (fst s) (snd s) e = s.
+Proof. exact set_bit_idempotent. Qed.
+Print Assumptions C18_law_set_bit_idempotent.
+
+Theorem C18_law_set_bit_commute : forall h l e f,
+  wf128 h l -> 0 <= e < 128 -> 0 <= f < 128 ->
+  let s := sc_uint128_set_bit h l e in
+  let t := sc_uint128_set_bit h l f in
+  sc_uint128_set_bit (fst s) (snd s) f = sc_uint128_set_bit (fst t) (snd t) e.
+Proof. exact set_bit_commute. Qed.
+Print Assumptions C18_law_set_bit_commute.
+
+Theorem C18_law_set_bit_adds : forall h l e,
+  wf128 h l -> 0 <= e < 128 -> sc_uint128_chk_bit h l e = 0 ->
+  val128 (sc_uint128_set_bit h l e) = val128 (h, l) + 2 ^ e.
+Proof. exact set_bit_adds. Qed.
+Print Assumptions C18_law_set_bit_adds.
+
+Theorem C18_law_shr_shr : forall h l s t r1 r2 r3 r4 r5 r6,
+  wf128 h l -> 0 <= s -> 0 <= t -> s + t < 2 ^ 31 ->
+  let a := sc_uint128_shift_right h l s r1 r2 in
+  sc_uint128_shift_right (fst a) (snd a) t r3 r4 = sc_uint128_shift_right h l (s + t) r5 r6.
+Proof. exact shr_shr. Qed.
+Print Assumptions C18_law_shr_shr.
+
+Theorem C18_law_shl_shl : forall h l s t r1 r2 r3 r4 r5 r6,
+  wf128 h l -> 0 <= s -> 0 <= t -> s + t < 2 ^ 31 ->
+  let a := sc_uint128_shift_left h l s r1 r2 in
+  sc_uint128_shift_left (fst a) (snd a) t r3 r4 = sc_uint128_shift_left h l (s + t) r5 r6.
+Proof. exact shl_shl. Qed.
+Print Assumptions C18_law_shl_shl.
+
+Theorem C18_law_shl_shr : forall h l s r1 r2 r3 r4,
+  wf128 h l -> 0 <= s <= 128 ->
+  let a := sc_uint128_shift_left h l s r1 r2 in
+  val128 (sc_uint128_shift_right (fst a) (snd a) s r3 r4) = val128 (h, l) mod 2 ^ (128 - s).
+Proof. exact shl_shr. Qed.
+Print Assumptions C18_law_shl_shr.
+
+Theorem C18_law_shr_shl : forall h l s r1 r2 r3 r4,
+  wf128 h l -> 0 <= s < 2 ^ 31 ->
+  let a := sc_uint128_shift_right h l s r1 r2 in
+  val128 (sc_uint128_shift_left (fst a) (snd a) s r3 r4) = val128 (h, l) - val128 (h, l) mod 2 ^ s.
+Proof. exact shr_shl. Qed.
+Print Assumptions C18_law_shr_shl.
+
+Theorem C18_law_compare_antisym : forall ah al bh bl,
+  wf128 ah al -> wf128 bh bl ->
+  sc_uint128_compare ah al bh bl = - sc_uint128_compare bh bl ah al.
+Proof. exact compare_antisym. Qed.
+Print Assumptions C18_law_compare_antisym.
+
+Theorem C18_law_compare_eq_iff : forall ah al bh bl,
+  wf128 ah al -> wf128 bh bl ->
+  sc_uint128_compare ah al bh bl = 0 <-> (ah, al) = (bh, bl).
+Proof. exact compare_eq_iff. Qed.
+Print Assumptions C18_law_compare_eq_iff.
+
+Theorem C18_law_compare_trans : forall ah al bh bl ch cl,
+  wf128 ah al -> wf128 bh bl -> wf128 ch cl ->
+  sc_uint128_compare ah al bh bl <= 0 -> sc_uint128_compare bh bl ch cl <= 0 ->
+  sc_uint128_compare ah al ch cl <= 0.
+Proof. exact compare_trans. Qed.
+Print Assumptions C18_law_compare_trans.
+
+Theorem C18_law_is_equal_compare : forall ah al bh bl,
+  wf128 ah al -> wf128 bh bl ->
+  sc_uint128_is_equal ah al bh bl = b2z (sc_uint128_compare ah al bh bl =? 0).
+Proof. exact is_equal_compare. Qed.
+Print Assumptions C18_law_is_equal_compare.
+
+Theorem C18_law_add_wraps_iff : forall ah al bh bl rh rl,
+  wf128 ah al -> wf128 bh bl ->
+  let s := sc_uint128_add ah al bh bl rh rl in
+  sc_uint128_compare (fst s) (snd s) ah al = -1 <-> 2 ^ 128 <= val128 (ah, al) + val128 (bh, bl).
+Proof. exact add_wraps_iff. Qed.
+Print Assumptions C18_law_add_wraps_iff.
